@@ -113,9 +113,17 @@ RenderChannels == {
 TemplateChannels == {
     "display", "to_value", "to_value-serde", "serde-json", "serde-collect",
     "sval", "sval-ref", "sval-json", "debug"}
-\* Debug quotes and escapes; the model's characters need no escape
+\* Debug quotes the text.  Whether Debug also *escapes* (a quote, a backslash inside the text) the
+\* statement does not say: for a template whose text has such a character the Debug channel is a
+\* don't-care (DebugDontCare; the harness reports what it observes), every other channel still gives
+\* the text verbatim.
 Quoted(txt) == "\"" \o txt \o "\""
-RenderVia(ch, t, props) == IF ch = "debug" THEN Quoted(Render(t, props)) ELSE Render(t, props)
+EscapableChars == {"\"", "\\"}
+HasEscapable(t) == \E i \in 1..Len(t) : t[i].k = "T" /\ \E j \in 1..Len(t[i].cs) : t[i].cs[j] \in EscapableChars
+DebugDontCare == "<<debug: don't-care>>"
+RenderVia(ch, t, props) ==
+    IF ch = "debug" THEN (IF HasEscapable(t) THEN DebugDontCare ELSE Quoted(Render(t, props)))
+    ELSE Render(t, props)
 \* a Template on its own is its text with every hole as `{label}`
 TemplateVia(ch, t) == RenderVia(ch, t, <<>>)
 \* as_literal (Template and Render): the text when the template is one text part, nothing when
